@@ -122,4 +122,49 @@ def windowAfter (w : Bool) (ops : List (Op β)) : Bool :=
   ops.foldl (fun w op => match op with | .truncate => true | .flush => false | _ => w) w
 def inWindow (ops : List (Op β)) : Bool := windowAfter false ops
 
+/-! ## linking a file: `TextObserver.file = value` (io/core.py)
+
+What the setter decides from the outside of the object it is given: a name is opened in the observer's mode, an open
+file-like object is linked as it is, a closed one is refused, and an observer that rewrites its file
+(`accept_stream = False`: the restart observer) refuses what cannot seek. -/
+
+inductive ArgKind | str | path | other
+deriving DecidableEq, Repr
+
+/-- the attributes of `value` the setter looks at -/
+structure FileArg where
+  kind : ArgKind
+  hasRead : Bool
+  hasWrite : Bool
+  isIOBase : Bool
+  /-- truthiness of `getattr(value, "closed", False)` -/
+  closed : Bool
+  /-- `value.seekable()` when the object has that method -/
+  seekableMethod : Option Bool
+  hasSeek : Bool
+deriving DecidableEq, Repr
+
+inductive LinkResult
+  | opened          -- `Path(value).open(mode, encoding)`
+  | linked          -- `self._file = value`
+  | closedFile      -- ValueError: impossible to link a closed file
+  | notSeekable     -- ValueError: does not accept non-file streams
+  | typeError
+deriving DecidableEq, Repr
+
+def FileArg.seekable (a : FileArg) : Bool :=
+  match a.seekableMethod with
+  | some b => b
+  | none => a.hasSeek
+
+def link (acceptStream : Bool) (a : FileArg) : LinkResult :=
+  match a.kind with
+  | .str | .path => .opened
+  | .other =>
+    if a.hasRead || a.hasWrite || a.isIOBase then
+      if a.closed then .closedFile
+      else if !acceptStream && !a.seekable then .notSeekable
+      else .linked
+    else .typeError
+
 end Files
